@@ -223,3 +223,24 @@ func (g *gen) scopeMatrix(emit func(string, M) M) {
 		}
 	}
 }
+
+// exchangeAuthMatrix: every client that may exchange tokens first succeeds with its registered credentials and then presents every
+// other kind of credentials - what a client proved in an earlier request does not authenticate a later one.
+func (g *gen) exchangeAuthMatrix(emit func(string, M) M) {
+	sub, _, _ := lastNames(g.codeFlowOut("cw", emit))
+	if sub == "none" || sub == "" {
+		return
+	}
+	other := func(c string) string {
+		if c == "cw" {
+			return "cx"
+		}
+		return "cw"
+	}
+	for _, c := range []string{"cw", "cs", "cx", "cj"} {
+		for _, cr := range presentations(other(c)) {
+			emit("TokenExchange", M{"caller": c, "cred": g.rightCred(c), "subj": atRef(sub), "actor": noActor, "requested": "access", "scopes": []string{"openid"}})
+			emit("TokenExchange", M{"caller": c, "cred": cr, "subj": atRef(sub), "actor": noActor, "requested": "access", "scopes": []string{"openid"}})
+		}
+	}
+}
